@@ -65,6 +65,9 @@ func (b *BreadthFirst) Walk(g Graph, from graph.Node, until func(n graph.Node, d
 	for b.queue.Len() > 0 {
 		t := b.queue.Dequeue()
 		if until != nil && until(t, depth) {
+			// Do not leave the remaining frontier
+			// of this walk for the next walk.
+			b.queue.Reset()
 			return t
 		}
 		tid := t.ID()
@@ -171,6 +174,9 @@ func (d *DepthFirst) Walk(g Graph, from graph.Node, until func(graph.Node) bool)
 			d.Visit(u)
 		}
 		if until != nil && until(u) {
+			// Do not leave the remaining stack
+			// of this walk for the next walk.
+			d.stack = d.stack[:0]
 			return u
 		}
 		to := g.From(uid)
